@@ -171,7 +171,7 @@ def check_native(prop, spec, tier, seed, replay=None):
 
     violations = []
     notes = []
-    for old in glob.glob(os.path.join(rundir(prop), 'fail-*.json')):
+    for old in glob.glob(os.path.join(rundir(prop), 'fail-*.json')) + glob.glob(os.path.join(rundir(prop), 'survey.json')):
         os.unlink(old)
     # ---- 1. replay tier: known findings and regression replays
     entries = kf.load(prop)
